@@ -57,6 +57,7 @@ type Engine struct {
 	concreteClock bool
 	acqOnly       bool
 	modPrefix     string
+	asn1MaxVec    int
 	lenient    bool
 	lazyGlobals []int
 	deadlocks  int
